@@ -135,14 +135,20 @@ Definition parse_formula_str (cs:list nat) : option (form * list (list nat)) :=
   match lexer cs with
   | Some ts => match parse_formula (map (ftok_of (names_of ts)) ts) with Some f => Some (f, names_of ts) | None => None end
   | None => None end.
-(* parse_queries_from_str: a text containing "conditionals" is a full file, otherwise it is wrapped into the template *)
+(* parse_queries_from_str: a text containing both keywords "signature" and "conditionals" as tokens of their own (not inside an
+   identifier) is a full file, otherwise it is wrapped into the template *)
 Fixpoint is_prefix (p l:list nat) : bool := match p, l with [] , _ => true | x::p', y::l' => (x =? y) && is_prefix p' l' | _, [] => false end.
 Fixpoint contains (p l:list nat) : bool := is_prefix p l || match l with [] => false | _::r => contains p r end.
 Definition template_pre : list nat :=   (* "signature \n a,b,c,d,e,f \n conditionals \n Querydummy \n { \n " *)
   kw_signature ++ [32;10;32;97;44;98;44;99;44;100;44;101;44;102;32;10;32] ++ kw_conditionals ++ [32;10;32;81;117;101;114;121;100;117;109;109;121;32;10;32;123;32;10;32].
 Definition template_post : list nat := [10;32;125].
+Fixpoint has_word_from (prev_id:bool) (w l:list nat) : bool :=
+  match l with [] => false
+  | c::r => (negb prev_id && is_prefix w l && negb (match skipn (length w) l with x::_ => is_idchar x | [] => false end))
+            || has_word_from (is_idchar c) w r end.
+Definition has_word (w l:list nat) : bool := has_word_from false w l.
 Definition parse_queries_str (cs:list nat) : option (pfile * list (list nat)) :=
-  if contains kw_conditionals cs then parse_file cs
+  if has_word kw_signature cs && has_word kw_conditionals cs then parse_file cs
   else match parse_file (template_pre ++ cs ++ template_post) with
        | Some (p, nm) => match pf_conds p with [] => None   (* "if query_dict:" fails, no Queries object: an error *)
                          | _ => Some (p, nm) end
